@@ -147,6 +147,14 @@ fn documents(thorough: bool) -> Vec<String> {
         docs.push(format!("{{\"x\": {}}}", s));
         docs.push(format!("{{\"x\": {{{}: {}}}}}", s, s));
     }
+    // strings and keys made of JSON's own punctuation: any textual pre- or post-processing of the
+    // document (comment stripping, trailing-comma leniency, key rewriting) shows here
+    let punct = [',', ' ', ']', '}', '[', '{', ':', '"', '\\', 'a', '/'];
+    for w in words(&punct, if thorough { 4 } else { 3 }).into_iter().filter(|w| !w.is_empty()) {
+        let text: String = w.iter().collect();
+        let lit = serde_json::to_string(&text).unwrap();
+        docs.push(format!("{{\"x\": [{}, {{{}: {}}}]}}", lit, lit, lit));
+    }
     for d in [
         "{\"x\": null}", "{\"x\": true}", "{\"x\": false}", "{\"x\": []}", "{\"x\": {}}", "{\"x\": [[], {}, [[]], {\"a\": {}}]}", "{\"x\": {\"b\": 1, \"a\": 2, \"c\": {\"z\": 1, \"y\": 2}}}",
         "{\"x\": [1, \"a\", null, true, [2, {\"k\": [3]}]]}", "{\"x\": {\"\": 0, \"0\": 1, \"a b\": 2, \"k\\u0000\": 3, \"k\": 4}}", "{ \"x\" : [ 1 , 2 ] }", "{\"x\":1,\"x\":2}",
@@ -344,7 +352,7 @@ pub fn run(ctx: &Ctx, replay: Option<&J>) -> i32 {
     finish(
         ctx,
         "exploration",
-        "direction 1: every leaf (grid spread of finite doubles incl. -0, 5e-324, f64::MAX, 2^53+1; every string of length <= 2/3 over the 24-code-point alphabet plus BOM / surrogate-boundary / escape-looking strings; booleans, null), each leaf in a list and under every key of a 39-key pool (empty, numeric-looking, composed/decomposed, trailing NUL, quotes, __proto__), every ordered key pair, leaf pairs, depth-3/4 nestings and depth-6 spines: value -> from_value -> to_json -> text -> from_json -> to_value, compared by .== in one heap and structurally by bits / code points; direction 2: documents (number spellings incl. 17+ digits, exponents, > 2^64 integers; escapes; nested, duplicate keys) through the real `blots 'output x = inputs.x' -i doc` and a second process reading the first one's stdout, compared by an independent JSON oracle; stdin read boundaries: 70/140 KB documents (string, key, list of strings) of 2-, 3- and 4-byte characters at every phase relative to every power-of-two offset, and a short document delivered 1, 2 and 3 bytes at a time; distinct = distinct values / documents",
+        "direction 1: every leaf (grid spread of finite doubles incl. -0, 5e-324, f64::MAX, 2^53+1; every string of length <= 2/3 over the 24-code-point alphabet plus BOM / surrogate-boundary / escape-looking strings; booleans, null), each leaf in a list and under every key of a 39-key pool (empty, numeric-looking, composed/decomposed, trailing NUL, quotes, __proto__), every ordered key pair, leaf pairs, depth-3/4 nestings and depth-6 spines: value -> from_value -> to_json -> text -> from_json -> to_value, compared by .== in one heap and structurally by bits / code points; direction 2: documents (number spellings incl. 17+ digits, exponents, > 2^64 integers; escapes; nested, duplicate keys; every string of length <= 3/4 over JSON's own punctuation as value and key) through the real `blots 'output x = inputs.x' -i doc` and a second process reading the first one's stdout, compared by an independent JSON oracle; stdin read boundaries: 70/140 KB documents (string, key, list of strings) of 2-, 3- and 4-byte characters at every phase relative to every power-of-two offset, and a short document delivered 1, 2 and 3 bytes at a time; distinct = distinct values / documents",
         true,
         None,
     )
